@@ -29,6 +29,9 @@ ASSUMPTIONS = [
     'crash model = what C18 states: any prefix of the OS-level write sequence (what CPython buffering actually '
     'hands to the OS for the seeded buffer size), a cut inside any single write, or any byte length of the finished '
     'file; re-ordering of un-synced writes by a power failure is outside the quantifier',
+    'writing may also stop because a write fails: the k-th OS-level write raises ENOSPC (and every later one), or EIO '
+    'once; what the output path holds when the writer call has returned, raised or hangs (state of the disk at the '
+    'instant no thread can progress) is read like any other partial file',
     'reading a short file: local read() returns what is there; the blob fake answers InvalidRange when the range '
     'starts at or beyond the end and returns the available bytes otherwise',
     'get_source_data_hash()/__str__ are not in the battery (the digest is patched in last by construction: C20)',
@@ -87,9 +90,13 @@ def writer_items(seed, tier, scratch):
     return items
 
 
-def run_writer(item):
+def run_writer(item, wfault=None):
     """Runs the writer of item under the sequential schedule.  Returns (final bytes, os write log of
-    the output path) or (None, None) when the writer itself refuses the configuration."""
+    the output path) or (None, None) when the writer itself refuses the configuration.
+
+    wfault = (k, kind): the k-th OS-level write fails ('enospc': it and every later one; 'eio_once': it alone).
+    Returns (what the output path holds when the call has returned, raised or - where a real process would hang -
+    can no longer make progress; None when there is no such file, how the call ended)."""
     w = item['w']
     if w == 'convert':
         fs = storage.SimFS(bufsize=item['buf'])
@@ -129,8 +136,17 @@ def run_writer(item):
         chooser = core.make_chooser(item['wsched'], core.stream(item.get('wseed', 0), item['id'], 'writer-schedule'), est_steps=60)
     else:
         chooser = core.SeqChooser()
+    if wfault is not None:
+        fs.wfault = {'k': wfault[0], 'kind': wfault[1], 'n': 0, 'fired': 0}
     r = env.run_sim(fn, fs, chooser, step_cap=10 ** 6)
     readers.clear_caches()
+    if wfault is not None:
+        if not fs.wfault['fired']:
+            return None, 'not-reached'
+        if r.seq_at_abort is not None:
+            files = storage.SimFS.replay([e for e in fs.oslog if e[0] <= r.seq_at_abort])
+            return (bytes(files[OUT]) if OUT in files else None), r.status
+        return (fs.image(OUT) if fs.exists(OUT) else None), r.status
     if r.status != 'ok' or not fs.exists(OUT):
         return None, None
     return fs.image(OUT), list(fs.oslog)
@@ -478,6 +494,41 @@ def one_item(ctx, item):
                 app = [c for c in calls if readers.applicable(kind, c)]
                 v['calls_before'] = app[:app.index(call)]
             rec['violations'].append(v)
+    # ---- the writer meets a failing write (disk full from there on; one transient I/O error): whatever it
+    # leaves under the output name when it returns, raises or hangs is a partial file as well
+    rec['wfaults'] = collections.Counter()
+    if not item.get('exhaustive') and ctx.get('max_wfaults'):
+        frng = core.stream(seed, item['id'], 'wfaults')
+        cands = [(k, kind) for k in range(rec['os_writes']) for kind in ('enospc', 'eio_once')]
+        if len(cands) > ctx['max_wfaults']:
+            cands = sorted(frng.sample(cands, ctx['max_wfaults']))
+        for j, (k, kind) in enumerate(cands):
+            img, status = run_writer(item, wfault=(k, kind))
+            rec['wfaults'][f'{kind}:{status}'] += 1
+            if img is None:
+                continue
+            h = hashlib.sha1(img).digest()
+            if h in seen:
+                rec['wfaults']['image_already_examined'] += 1
+                continue
+            seen.add(h)
+            desc = ['wfault', k, kind]
+            opener = OPENER_CYCLE[(j + item['id']) % len(OPENER_CYCLE)]
+            if opener == 'xarray' and (m['is_2d'] or not readers.HAVE_XARRAY):
+                opener = 'path'
+            common.mark({'image': desc, 'opener': opener, 'mode': 'fresh'})
+            bad, n = eval_image(img, opener, calls, truth, m)
+            rec['images'] += 1
+            rec['pairs'] += n
+            rec['img_kinds']['wfault'] += 1
+            for call, got, want, sec in bad:
+                sig = signature(m, call, sec, got) + '|after-write-fault'
+                if sig in sig_seen and len(rec['violations']) > 40:
+                    continue
+                sig_seen.add(sig)
+                rec['violations'].append({'signature': sig, 'image': desc, 'opener': opener, 'call': call, 'mode': 'fresh',
+                                          'got': repr(got)[:200], 'want': repr(want)[:200], 'size': len(img)})
+    rec['wfaults'] = dict(rec['wfaults'])
     rec['modes'] = dict(rec['modes'])
     rec['img_kinds'] = dict(rec['img_kinds'])
     rec['openers'] = dict(rec['openers'])
@@ -504,7 +555,12 @@ def replay_doc(doc, scratch):
     call = doc['call']
     kind = readers.OPENERS[doc['opener']]['kind']
     truth = readers.truth_table(final, {kind: [call]})
-    img = rebuild_image(oslog, final, doc['image'])
+    if doc['image'][0] == 'wfault':
+        img, _ = run_writer(item, wfault=(doc['image'][1], doc['image'][2]))
+        if img is None:
+            return None, ''
+    else:
+        img = rebuild_image(oslog, final, doc['image'])
     mode = doc.get('mode', 'fresh')
     calls = [call]
     if mode != 'fresh':
@@ -516,7 +572,7 @@ def replay_doc(doc, scratch):
     if not bad:
         return None, ''
     call, got, want, sec = bad[0]
-    return signature(m, call, sec, got, mode), f'partial file ({doc["image"]}, {len(img)} of {len(final)} bytes) opened via ' \
+    return signature(m, call, sec, got, mode) + ('|after-write-fault' if doc['image'][0] == 'wfault' else ''), f'partial file ({doc["image"]}, {len(img)} of {len(final)} bytes) opened via ' \
         f'{doc["opener"]} ({mode}): {call} returned {got} but the complete file gives {want}'
 
 
@@ -576,7 +632,8 @@ def _main(tier, seed, scratch, t0):
         for spec_id in (0, 14):
             for shard in range(32):           # every byte length of two small files, in 32 parallel shards
                 items.append(dict(items[spec_id], id=len(items), exhaustive=[shard, 32]))
-    ctx = {'seed': seed, 'n_extra': 12 if quick else 24, 'max_images': 150 if quick else 1200}
+    ctx = {'seed': seed, 'n_extra': 12 if quick else 24, 'max_images': 150 if quick else 1200,
+           'max_wfaults': 8 if quick else 60}
     # determinism self-test: same item twice
     stable = _stable
     a = one_item(ctx, items[0])
@@ -595,6 +652,7 @@ def _main(tier, seed, scratch, t0):
     img_kinds = collections.Counter()
     openers = collections.Counter()
     modes = collections.Counter()
+    wfaults = collections.Counter()
     wscheds = collections.Counter()
     layouts = collections.Counter()
     writers = collections.Counter()
@@ -616,6 +674,7 @@ def _main(tier, seed, scratch, t0):
         img_kinds.update(rec['img_kinds'])
         openers.update(rec.get('openers', {}))
         modes.update(rec.get('modes', {}))
+        wfaults.update(rec.get('wfaults', {}))
         wscheds['writer_runs_with_another_os_write_order'] += rec.get('alt_schedules', 0)
         layouts[rec['layout']] += 1
         writers[rec['w']] += 1
@@ -681,7 +740,9 @@ def _main(tier, seed, scratch, t0):
         'exhaustive_note': 'per writer run the prefixes are complete; torn / truncation cuts are at sector and section '
                            'boundaries +-1 plus seeded offsets (thorough: every byte length for two small files)',
         'fault_counts': {'crash_prefix': img_kinds.get('prefix', 0), 'torn_write': img_kinds.get('torn', 0),
-                         'truncated_copy': img_kinds.get('trunc', 0)},
+                         'truncated_copy': img_kinds.get('trunc', 0),
+                         'writer_runs_with_a_failing_write (kind:how the call ended)': dict(wfaults),
+                         'distinct_images_left_by_a_failing_write': img_kinds.get('wfault', 0)},
         'runs_per_hour': int(sum(writers.values()) / max(1e-9, wall) * 3600),
         'worker_crashes': len(crashed),
         'components_real': ['seismic_zfp readers, loaders, converters, cropper, re-blocker', 'zfpy', 'numpy',
@@ -717,6 +778,6 @@ def _stable(rec):
 
 def selftest_digests(seed, n, scratch):
     items = writer_items(seed, 'quick', scratch)[:n]
-    ctx = {'seed': seed, 'n_extra': 6, 'max_images': 40}
+    ctx = {'seed': seed, 'n_extra': 6, 'max_images': 40, 'max_wfaults': 4}
     results, _, _ = common.run_parallel(lambda c, it: common.sha(_stable(one_item(c, it)).encode()), ctx, items, chunk=1)
     return [d for _, d in sorted(results, key=lambda x: x[0]['id'])]
